@@ -59,9 +59,10 @@ def level(named, tail=NOTAIL, version=False, vtag="0"):
 
 
 def alpha(words=("1", "x"), spells=("sep", "eq"), extras=("dd", "help", "unk"), maxlen=3,
-          envvals=("UNSET",), clusters=False):
+          envvals=("UNSET",), clusters=False, eqvals=None):
     return {"words": list(words), "spells": list(spells), "extras": list(extras),
-            "maxlen": maxlen, "envvals": list(envvals), "clusters": clusters}
+            "maxlen": maxlen, "envvals": list(envvals), "clusters": clusters,
+            "eqvals": list(eqvals if eqvals is not None else words)}
 
 
 def mkdef(id, lvl, **alpha_kw):
@@ -91,13 +92,13 @@ def alphabet_size(d):
                 if "sep" in a["spells"]:
                     n += len(names)
                 if "eq" in a["spells"]:
-                    n += len(names) * len(a["words"])
+                    n += len(names) * len(a["eqvals"])
                 if "glued" in a["spells"]:
-                    n += len(it["shorts"]) * len(a["words"])
+                    n += len(it["shorts"]) * len(a["eqvals"])
         if a.get("clusters"):
             f = sum(len(it["shorts"]) for it in l["named"] if it["kind"] != "arg")
             g = sum(len(it["shorts"]) for it in l["named"] if it["kind"] == "arg")
-            n += f * f + f * g * (len(a["words"]) + 1)
+            n += f * f + f * g * (len(a["eqvals"]) + 1)
         if l["tail"]["kind"] == "cmd":
             for c in l["tail"]["cmds"]:
                 words |= set(c["names"]) | set(c["shorts"])
@@ -204,7 +205,7 @@ def cmd_tail_variant(v, rnd):
 
 def trim_to_budget(d, budget):
     a = d["alpha"]
-    steps = [lambda: a.__setitem__("words", a["words"][:1]) if len(a["words"]) > 1 else None,
+    steps = [lambda: (a.__setitem__("words", a["words"][:1]), a.__setitem__("eqvals", a["eqvals"][:1])) if len(a["words"]) > 1 else None,
              lambda: a.__setitem__("spells", a["spells"][:1]) if len(a["spells"]) > 1 else None,
              lambda: a.__setitem__("clusters", False),
              lambda: a.__setitem__("maxlen", a["maxlen"] - 1) if a["maxlen"] > 2 else None]
@@ -213,3 +214,120 @@ def trim_to_budget(d, budget):
         steps[i]()
         i += 1
     return d
+
+
+# ---------------------------------------------------------------- command trees (C08)
+def _uniq_named(rnd, prefix, letters, k, kinds=None):
+    """k named items with names unique across the whole tree (letters is a shared iterator)"""
+    out = []
+    for j in range(k):
+        L = next(letters)
+        kind = rnd.choice(kinds or ["sw", "sw2", "arg_one", "arg_opt", "arg_many", "rf_count", "arg_fb"])
+        id = f"{prefix}{j}"
+        if kind == "sw":
+            out.append(sw(id, f"-{L}"))
+        elif kind == "sw2":
+            out.append(sw(id, f"-{L}", f"--{L}{L}long"))
+        elif kind == "arg_one":
+            out.append(ar(id, "one", rnd.choice(["str", "int"]), f"-{L}"))
+        elif kind == "arg_opt":
+            out.append(ar(id, "opt", rnd.choice(["str", "int"]), f"--{L}opt", f"-{L}"))
+        elif kind == "arg_many":
+            out.append(ar(id, "many", "str", f"--{L}many"))
+        elif kind == "rf_count":
+            out.append(rf(id, "count", f"-{L}"))
+        else:
+            out.append(ar(id, "fallback", "int", f"--{L}fb"))
+    return out
+
+
+def cmd_tree(rnd, depth, letters, prefix="L", max_named=2, max_cmds=2, cmd_names=None):
+    cmd_names = cmd_names if cmd_names is not None else iter(
+        ["one", "two", "three", "four", "five", "six", "seven", "eight", "nine", "ten", "eleven", "twelve"]
+        + [f"cmd{i}" for i in range(40)])
+    named = _uniq_named(rnd, prefix + "n", letters, rnd.randint(0, max_named))
+    if depth == 0:
+        tails = [NOTAIL, postail(pos(prefix + "p", "opt")), postail(pos(prefix + "p", "many")),
+                 postail(pos(prefix + "p", "one"), pos(prefix + "q", "opt", vt="int"))]
+        return level(named, rnd.choice(tails), version=rnd.random() < 0.3, vtag=prefix)
+    cmds = []
+    for c in range(rnd.randint(1, max_cmds)):
+        nm = next(cmd_names)
+        names = [nm] + ([nm[:2] + "alias"] if rnd.random() < 0.4 else [])
+        shorts = [nm[0] + "x"] if False else ([nm[0]] if rnd.random() < 0.3 else [])
+        sub = cmd_tree(rnd, depth - 1 if rnd.random() < 0.8 else 0, letters, prefix + str(c), max_named, max_cmds, cmd_names)
+        cmds.append(cmd(names, sub, shorts=shorts))
+    # short aliases must not collide between siblings
+    seen = set()
+    for c in cmds:
+        c["shorts"] = [x for x in c["shorts"] if x not in seen and not seen.add(x)]
+    return level(named, cmdtail(cmds, optional=rnd.random() < 0.3), version=rnd.random() < 0.3, vtag=prefix)
+
+
+def cmd_family(seed, n, depth=2, maxlen=4, budget=8000, extras=("help", "unk", "dd")):
+    rnd = random.Random(seed)
+    out = []
+    while len(out) < n:
+        letters = iter("abcdefgijklmnopqrstuvwyz")
+        lvl = cmd_tree(rnd, rnd.randint(1, depth), letters)
+        d = mkdef(f"cmd{seed}_{len(out)}", lvl, maxlen=maxlen, extras=extras,
+                  spells=rnd.choice([("sep",), ("eq",), ("sep", "eq")]), words=("1", "x"))
+        trim_to_budget(d, budget)
+        if est_states(d) <= budget * 3:
+            out.append(d)
+    return out
+
+
+# ---------------------------------------------------------------- positionals and `--` (C09)
+def pos_family(seed, n, maxlen=4, budget=8000):
+    rnd = random.Random(seed)
+    out = []
+    ar_pool = ["one", "opt", "many", "some"]
+    st_pool = ["any", "strict", "non_strict"]
+    while len(out) < n:
+        k = rnd.randint(0, 3)
+        items = []
+        for j in range(k):
+            arity = rnd.choice(ar_pool) if j == k - 1 or rnd.random() < 0.3 else "one"
+            items.append(pos(f"p{j}", arity, rnd.choice(st_pool), rnd.choice(["str", "str", "int"])))
+        named = []
+        for j in range(rnd.randint(0, 2)):
+            L = "abc"[j]
+            named.append(rnd.choice([sw(f"n{j}", f"-{L}"), ar(f"n{j}", rnd.choice(["opt", "many", "one"]), "str", f"-{L}", f"--{L}arg"),
+                                     rf(f"n{j}", "count", f"-{L}")]))
+        tail = postail(*items) if items else rnd.choice([NOTAIL, cmdtail([cmd("one", level([sw("cs", "-x")], postail(pos("cp", "many"))))],
+                                                                     optional=True)])
+        d = mkdef(f"pos{seed}_{len(out)}", level(named, tail), maxlen=maxlen, extras=("dd", "help", "unk"),
+                  spells=("sep", "eq"), words=rnd.choice([("1", "x"), ("1",)]), eqvals=("1", "--"))
+        trim_to_budget(d, budget)
+        out.append(d)
+    return out
+
+
+# ---------------------------------------------------------------- values, conversions, guards (C06)
+def val_family(seed, n, maxlen=3, budget=8000):
+    rnd = random.Random(seed)
+    out = []
+    arities = ["one", "opt", "many", "some", "fallback", "fallback_with", "last"]
+    while len(out) < n:
+        named = []
+        for j in range(rnd.randint(1, 2)):
+            L = "abc"[j]
+            a = arities[(len(out) + j) % len(arities)]
+            vt = rnd.choice(["int", "int", "str"])
+            named.append(ar(f"v{j}", a, vt, f"-{L}", f"--{L}val", guard=(vt == "str" or rnd.random() < 0.5)))
+        shape = len(out) % 4
+        if shape == 0:
+            lvl = level(named, NOTAIL)
+        elif shape == 1:
+            lvl = level(named, postail(pos("p0", rnd.choice(["opt", "many", "one"]), vt="int")))
+        elif shape == 2:
+            lvl = level([sw("t", "-t")], cmdtail([cmd("one", level(named, NOTAIL))]))
+        else:
+            lvl = level(named[:1], cmdtail([cmd("one", level([ar("w", "opt", "int", "-w")], postail(pos("cp", "opt", vt="int"))))],
+                                        optional=True))
+        d = mkdef(f"val{seed}_{len(out)}", lvl, maxlen=maxlen, extras=("unk",), spells=("sep", "eq"),
+                  words=("1", "2", "x"))
+        trim_to_budget(d, budget)
+        out.append(d)
+    return out
